@@ -123,31 +123,48 @@ func famLossGrad(g *Gen) {
 		ds = []int{b, 1 + g.intn(4)}
 	}
 	n := prod(ds)
-	depth := g.intn(4)
-	if depth > 0 {
-		g.tag("upstream")
-	}
-	pv := g.probVals(n, k != 0)
-	leaf := g.leafVals(ds, pv, g.chance(0.9))
-	p := leaf
-	for i := 0; i < depth; i++ {
-		switch g.intn(2) {
-		case 0:
-			o := g.leafVals(ds, constVals(n, 1), false)
-			p, _ = g.do(Cmd{Op: OpBin, K: 10, T: p, U: T(o)})
-		default:
-			z := g.leafVals(ds, constVals(n, 0), false)
-			p, _ = g.do(Cmd{Op: OpBin, K: 8, T: p, U: T(z)})
+	pass := func() {
+		depth := g.intn(4)
+		if depth > 0 {
+			g.tag("upstream")
+		}
+		pv := g.probVals(n, k != 0)
+		if k != 0 && g.chance(0.35) {
+			// strictly inside the clipping interval but close to a bound (the property excludes only the bounds)
+			near := []float64{1.5e-12, 1 - 1.5e-12, 3e-12, 1 - 3e-12, 1e-9, 1 - 1e-9, 1e-6}
+			for j := 0; j < 1+g.intn(2); j++ {
+				pv[g.intn(n)] = near[g.intn(len(near))]
+			}
+			g.tag("near-bound")
+		}
+		leaf := g.leafVals(ds, pv, g.chance(0.9))
+		p := leaf
+		for i := 0; i < depth; i++ {
+			switch g.intn(3) {
+			case 0:
+				o := g.leafVals(ds, constVals(n, 1), false)
+				p, _ = g.do(Cmd{Op: OpBin, K: 10, T: p, U: T(o)})
+			case 1:
+				z := g.leafVals(ds, constVals(n, 0), false)
+				p, _ = g.do(Cmd{Op: OpBin, K: 8, T: p, U: T(z)})
+			default:
+				p, _ = g.do(Cmd{Op: OpScale, T: p, A: Dec{1, 0}})
+			}
+		}
+		t := g.leafVals(ds, g.probVals(n, true), g.chance(0.2))
+		l, _ := g.do(Cmd{Op: OpLoss, K: k, Targs: []Targ{T(p), T(t)}})
+		if g.isT(l) {
+			g.do(Cmd{Op: OpBackprop, U: T(l)})
 		}
 	}
-	if depth > 0 && g.chance(0.3) {
-		// the prediction also feeds a second consumer (reconvergence below the loss)
-		g.tag("reconvergent")
-	}
-	t := g.leafVals(ds, g.probVals(n, true), g.chance(0.2))
-	l, _ := g.do(Cmd{Op: OpLoss, K: k, Targs: []Targ{T(p), T(t)}})
-	if g.isT(l) {
-		g.do(Cmd{Op: OpBackprop, U: T(l)})
+	pass()
+	if g.chance(0.45) {
+		// further batches of the same size through the SAME loss object
+		g.tag("second-pass-same-loss")
+		pass()
+		if g.chance(0.3) {
+			pass()
+		}
 	}
 }
 
@@ -250,9 +267,12 @@ func famActGrad(g *Gen) {
 	g.tag(actNames[k])
 	ds := g.shape(0, 4, 3)
 	c := Cmd{Op: OpAct, K: k}
-	if k == 3 && g.chance(0.7) {
+	if k == 3 && g.chance(0.75) {
 		c.HasA = true
-		c.A = []Dec{{5, -1}, {1, -1}, {2, 0}, {1, -2}}[g.intn(4)]
+		c.A = []Dec{{5, -1}, {1, -1}, {2, 0}, {1, -2}, {1, 0}, {0, 0}, {-5, -1}, {3, 0}}[g.intn(8)]
+		if c.A == (Dec{1, 0}) || c.A == (Dec{0, 0}) {
+			g.tag("leaky-slope-0-or-1")
+		}
 	}
 	if k == 4 {
 		if len(ds) == 0 {
@@ -264,30 +284,57 @@ func famActGrad(g *Gen) {
 		}
 	}
 	n := prod(ds)
-	vals := g.valsDistinct(n, -3, 3)
-	if (k == 0 || k == 1 || k == 3) && n > 0 && g.chance(0.5) {
-		vals[g.intn(n)] = 0
-		g.tag("input-0")
-	}
-	depth := g.intn(4)
-	leaf := g.leafVals(ds, vals, g.chance(0.9))
-	x := leaf
-	for i := 0; i < depth; i++ {
-		switch g.intn(2) {
-		case 0:
-			o := g.leafVals(ds, constVals(n, 1), false)
-			x, _ = g.do(Cmd{Op: OpBin, K: 10, T: x, U: T(o)})
-		default:
-			z := g.leafVals(ds, constVals(n, 0), false)
-			x, _ = g.do(Cmd{Op: OpBin, K: 8, T: x, U: T(z)})
+	pass := func(first bool) {
+		vals := g.valsDistinct(n, -3, 3)
+		if (k == 0 || k == 1 || k == 3) && n > 0 && g.chance(0.5) {
+			vals[g.intn(n)] = 0
+			g.tag("input-0")
+		}
+		depth := g.intn(4)
+		leaf := g.leafVals(ds, vals, g.chance(0.9))
+		x := leaf
+		for i := 0; i < depth; i++ {
+			switch g.intn(4) {
+			case 0:
+				o := g.leafVals(ds, constVals(n, 1), false)
+				x, _ = g.do(Cmd{Op: OpBin, K: 10, T: x, U: T(o)})
+			case 1:
+				z := g.leafVals(ds, constVals(n, 0), false)
+				x, _ = g.do(Cmd{Op: OpBin, K: 8, T: x, U: T(z)})
+			case 2:
+				// identity-like and ordinary scalings of a tracked intermediate
+				x, _ = g.do(Cmd{Op: OpScale, T: x, A: []Dec{{1, 0}, {1, 0}, {2, 0}, {-1, 0}, {5, -1}}[g.intn(5)]})
+				g.tag("upstream-scale")
+			default:
+				x, _ = g.do(Cmd{Op: OpPow, T: x, A: Dec{1, 0}})
+			}
+		}
+		if depth > 0 {
+			g.tag("upstream")
+		}
+		cc := c
+		cc.Targs = []Targ{T(x)}
+		y, _ := g.do(cc)
+		if g.isT(y) && g.chance(0.3) {
+			// the activation output feeds a deeper graph before the root
+			y, _ = g.do(Cmd{Op: OpScale, T: y, A: []Dec{{1, 0}, {3, 0}, {-2, 0}}[g.intn(3)]})
+			g.tag("downstream")
+		}
+		g.weightAndBackprop(y)
+		if first && g.chance(0.5) {
+			// the way a training loop continues: reset the leaf, go through the same layer again
+			g.do(Cmd{Op: OpReset, T: leaf, Flag: true})
 		}
 	}
-	if depth > 0 {
-		g.tag("upstream")
+	pass(true)
+	if g.chance(0.45) {
+		// a second (third) forward/backward pass through the SAME layer object with the same input shape
+		g.tag("second-pass-same-layer")
+		pass(false)
+		if g.chance(0.3) {
+			pass(false)
+		}
 	}
-	c.Targs = []Targ{T(x)}
-	y, _ := g.do(c)
-	g.weightAndBackprop(y)
 }
 
 // ---------- FC ----------
